@@ -228,4 +228,17 @@ Section Stiffness.
     all: try (cbn; ring).
     all: try (intros i j Hi Hj Hc; cases_lt i Hi; cases_lt j Hj; try (exfalso; lia); cbn; reflexivity).
   Qed.
+
+  (* the ALTERED stiffness is the UNALTERED one in every hypothesis that prescribes no normal stress *)
+  Lemma stiffA_same_elsewhere h c fa :
+    doc_supported h c = true -> altered_component h = None -> stiffA_code (hcode h) (ccode c) = Some fa ->
+    exists fu, stiffU_code (hcode h) (ccode c) = Some fu /\
+      forall i j, (i < doc_ssize h)%nat -> (j < doc_ssize h)%nat ->
+        entry (doc_ssize h) (app fa o) i j = entry (doc_ssize h) (app fu o) i j.
+  Proof.
+    destruct o as [e1 e2 e3 v12 v23 v13 g12 g23 g13]. unfold compliance_det in Hdet. cbn in HE1, HE2, HE3, Hdet.
+    destruct h, c; intros Hs Ha Hf; try discriminate Hs; try discriminate Ha; cbn in Hf; try discriminate Hf; injection Hf as <-;
+      eexists; (split; [reflexivity|]); intros i j Hi Hj; cases_lt i Hi; cases_lt j Hj; subst app;
+      match type of Hdet with ?P <> 0 => rat_entry e1 e2 e3 P P end.
+  Qed.
 End Stiffness.
